@@ -134,3 +134,7 @@ def run(tier: str) -> int:
         "model fuel 1500 = divergence; the real code is cut off after 3 s (HANG)",
     ]
     return chk.finish()
+
+
+def replay(doc) -> int:
+    return rc.replay(PROP, doc)
